@@ -224,6 +224,7 @@ const (
 	tyCoins   = "github.com/cosmos/cosmos-sdk/types.Coins"
 	tyCoin    = "github.com/cosmos/cosmos-sdk/types.Coin"
 	tyAuction = "github.com/tendermint/fundraising/x/fundraising/types.AuctionI"
+	tyAny     = "github.com/cosmos/cosmos-sdk/codec/types.Any"
 	modTypes  = "github.com/tendermint/fundraising/x/fundraising/types"
 	modKeeper = "github.com/tendermint/fundraising/x/fundraising/keeper"
 	modModule = "github.com/tendermint/fundraising/x/fundraising/module"
@@ -594,3 +595,6 @@ func (x *X) eqV(a, b Val) string {
 	}
 	panic(fmt.Sprintf("eqV %T", a))
 }
+
+// selAll selects index idx from every leaf array of a record.
+func (st St) selAll(idx string) St { return selV(st, idx).(St) }
